@@ -47,14 +47,31 @@ class OpTimeout(Exception):
 
 
 def with_alarm(seconds, fn, *a):
-    """run fn(*a); a hang of the code under test becomes the outcome 'hang'"""
+    """run fn(*a); a hang of the code under test becomes OpTimeout.  The timer REPEATS (every 0.5 s after the
+    first expiry) until fn has been left: a single exception can be swallowed, or can land in a `finally` of the
+    code under test that blocks again (e.g. a cleanup that waits for a thread which never finishes)."""
+    state = {"active": True}
+    if _HANGS[0] >= 3:          # hangs are established (each one is reported): do not spend the full limit again
+        seconds = min(seconds, 3)
+
     def handler(signum, frame):
-        raise OpTimeout()
+        if state["active"]:
+            raise OpTimeout()
 
     old = signal.signal(signal.SIGALRM, handler)
-    signal.alarm(seconds)
+    old_timer = signal.setitimer(signal.ITIMER_REAL, seconds, 0.5)
     try:
-        return fn(*a)
-    finally:
-        signal.alarm(0)
-        signal.signal(signal.SIGALRM, old)
+        try:
+            return fn(*a)
+        finally:
+            state["active"] = False
+            signal.setitimer(signal.ITIMER_REAL, 0)
+            signal.signal(signal.SIGALRM, old)
+            if old_timer[0] > 0:     # an enclosing watchdog (run.py's): give it its time back
+                signal.setitimer(signal.ITIMER_REAL, old_timer[0], old_timer[1])
+    except OpTimeout:
+        _HANGS[0] += 1
+        raise
+
+
+_HANGS = [0]
